@@ -541,7 +541,7 @@ def gen_affine(rng, allow_k3=False, allow_occ=False):
             f_ranks.append(d["s"]); f_acc.append(d["s"].lower())
         i_acc.append(" + ".join(terms))
     # a second reduction variable inside the first affine access: O[q] = I[q + s + 2*v] * F[s] * G[v]
-    two_red = ndim == 1 and dims[0]["s"] and not chan_c and not chan_m and rng.random() < 0.15
+    two_red = ndim == 1 and dims[0]["s"] and not chan_c and not chan_m and rng.random() < 0.2
     if two_red:
         dims[0]["c"] = rng.choice([1, 1, 2])
         i_acc[-1] = i_acc[-1] + " + " + _iterm(dims[0]["c"], "v")
